@@ -13,6 +13,15 @@ CODES = {1: "whole-request outcome differs", 2: "a receipt is missing or unexpec
          8: "effects of a receipt differ (fork links in order, join)", 9: "model ran out of fuel"}
 
 
+# world ids of the cases in which a token travels under a CID that is not the dag-cbor / sha2-256 CID of its bytes
+# (harness/cmd/harness/servebytes_bound.go): variant number * REL_STEP + the batch's id
+REL_STEP = 10000000
+REL_VARIANTS = {1: "the first invocation under a raw / CIDv0 / dag-json CID, named so by the execute list",
+                2: "an invocation re-issued with its first proof cited under a raw / CIDv0 / dag-json CID (the proof's bytes travel under both CIDs)",
+                3: "a relabelled copy of the first invocation executed next to the genuine request",
+                4: "a proof's block carried only under a raw / CIDv0 / dag-json CID"}
+
+
 def start(wd):
     files = sorted(glob.glob(os.path.join(wd, "sbytes_*.v")))
     if not files:
@@ -53,11 +62,14 @@ def finish(run, h, prop, labels=None):
             ok = False
             what = CODES.get(code, "code %d" % code)
             counts[what] = counts.get(what, 0) + 1
-            lab = (labels or {}).get(str(wid), "")
+            lab = (labels or {}).get(str(wid % REL_STEP), "")
+            if wid >= REL_STEP:
+                lab = (lab + "; " if lab else "") + "RELABELLED BLOCK: " + REL_VARIANTS.get(wid // REL_STEP, "?")
             run.violation("serve-bytes:" + what,
-                          "batch %d (%s): %s between serve_bytes (request body -> decode_message -> view_block of every block -> Server.execute) "
+                          "batch %d (%s): %s between serve_bytes (request body -> decode_message -> every block read as delegation.Data() reads it: "
+                          "view_block when the CID is the dag-cbor/sha2-256 CID of the bytes, no field otherwise -> Server.execute) "
                           "and the server's answer to that body" % (wid, lab, what),
-                          dict(batch_id=wid, label=lab, code=code, case_file=f, body_hex=body_of(f, wid),
+                          dict(batch_id=wid % REL_STEP, relabelled_variant=wid // REL_STEP, label=lab, code=code, case_file=f, body_hex=body_of(f, wid),
                                how="coqc on the case file re-evaluates serve_bytes on the recorded body; the record carries the body, the digests of its blocks, "
                                    "the observed signature checks, the resolver's blocks, the context and the observed receipts / calls"))
     try:
